@@ -115,3 +115,35 @@ func (it *Interp) readMont(f *Field, c *Cell) (*Poly, string) {
 	}
 	return EmbTerm(f, t).ScaleC(f.RInv), ""
 }
+
+// ReadMont is readMont for drivers.
+func (it *Interp) ReadMont(f *Field, c *Cell) (*Poly, string) { return it.readMont(f, c) }
+
+// ReadInt is readInt for drivers.
+func (it *Interp) ReadInt(c *Cell) (*Term, bool) {
+	t, ok := it.readInt(c)
+	if ok {
+		t = it.ApplyTerm(t)
+	}
+	return t, ok
+}
+
+// SetMont initialises a limb-array cell with the Montgomery representation of v (driver set-up; not journaled).
+func (it *Interp) SetMont(f *Field, c *Cell, v *Poly) { c.Rep = &Rep{MontOf(f, v)} }
+
+// SetInt initialises a limb-array cell with the integer term t.
+func (it *Interp) SetInt(c *Cell, t *Term) { c.Rep = &Rep{t} }
+
+// Mark returns the current journal position.
+func (it *Interp) Mark() int { return len(it.journal) }
+
+// StoreMont stores the Montgomery representation of v into a limb-array cell (journaled: usable inside joins).
+func (it *Interp) StoreMont(f *Field, c *Cell, v *Poly) {
+	if c.Up != nil && c.Up.Rep != nil {
+		it.materialise(c.Up)
+	}
+	it.setRep(c, &Rep{MontOf(f, v)})
+}
+
+// Abort stops the analysis of the current path with a reason.
+func (it *Interp) Abort(reason string) { panic(&abort{reason}) }
